@@ -2,17 +2,20 @@
 # Independent re-check of the compiled development with coqchk (slow: the checker has no VM, so the three
 # finite-domain theorems proved by vm_compute dominate).  Usage: tools/coqchk_all.sh [outdir]
 # One log per group under <outdir> (default /verif/coqchk_logs): rc=0 and "Modules were successfully checked".
+# The groups run side by side (one coqchk process each).
 cd "$(dirname "$0")/../coq" || exit 2
 out=${1:-/verif/coqchk_logs}
 mkdir -p "$out"
 run() { name=$1; shift
-  mods=""; for p in "$@"; do mods="$mods PCProps.$p"; done
-  ( /usr/bin/time -f "wall=%es maxrss=%MkB" timeout ${COQCHK_TIMEOUT:-20000} coqchk -silent -o -Q theories PC -Q props PCProps $mods; echo "rc=$?" ) > "$out/$name.log" 2>&1
+  ( /usr/bin/time -f "wall=%es maxrss=%MkB" timeout ${COQCHK_TIMEOUT:-20000} coqchk -silent -o -Q theories PC -Q props PCProps "$@"; echo "rc=$?" ) > "$out/$name.log" 2>&1
   tail -3 "$out/$name.log" | tr '\n' ' '; echo " [$name]"
 }
-run light C01 C02 C03 C04 C05 C06 C07 C08 C09 C10 C11 C14 C16 C17 C18
-run C13 C13
-run C12 C12
-run C19 C19
-run C15 C15
+props() { for p in "$@"; do printf 'PCProps.%s ' "$p"; done; }
+run light $(props C01 C02 C03 C04 C05 C06 C07 C08 C09 C10 C11 C14 C16 C17 C18) &
+run C13 $(props C13) &
+run C12 $(props C12) &
+run C19 $(props C19) &
+run C15 $(props C15) &
+run examples PC.Examples.NonVacuity &
+wait
 echo COQCHK-DONE
